@@ -280,6 +280,8 @@ func runC18(ctx *core.Ctx) {
 			for _, l := range loopsOf(g) {
 				n++
 				ctx.Check(loopGuarded(g, l), "RI4", shortFn(f)+"#loop"+itoa(n), f.Blocks[l.Header].Instrs[0].Pos(), "loop has an exit that depends on the reader's err/eof state")
+				spin := spinsUnderError(p, g, l)
+				ctx.Check(spin == "", "RI4", shortFn(f)+"#loop"+itoa(n)+":exits-on-error", f.Blocks[l.Header].Instrs[0].Pos(), "evaluated with the reader in its error state (err != nil, peekByte/nextByte/readByte yield 0) the loop cannot come back to its head %s", spin)
 			}
 			g.Instrs(func(i ssa.Instruction) {
 				pn, ok := i.(*ssa.Panic)
@@ -341,4 +343,200 @@ func loopGuarded(g *ssax.Graph, l natLoop) bool {
 		}
 	}
 	return false
+}
+
+// evalErrState evaluates a condition with the reader in its error state.
+func evalErrState(p *core.Prog, v ssa.Value, depth int) (int64, bool) {
+	if k, ok := ssax.ConstInt(v); ok {
+		return k, true
+	}
+	if k, ok := ssax.ConstBool(v); ok {
+		if k {
+			return 1, true
+		}
+		return 0, true
+	}
+	bi := func(c bool) (int64, bool) {
+		if c {
+			return 1, true
+		}
+		return 0, true
+	}
+	switch x := v.(type) {
+	case *ssa.Convert:
+		return evalErrState(p, x.X, depth)
+	case *ssa.UnOp:
+		if x.Op == token.NOT {
+			k, ok := evalErrState(p, x.X, depth)
+			return 1 - k, ok
+		}
+	case *ssa.Call:
+		n := ssax.CalleeName(&x.Call)
+		if strings.HasSuffix(n, ".peekByte") || strings.HasSuffix(n, ".nextByte") || strings.HasSuffix(n, ".readByte") {
+			return 0, true
+		}
+		// a pure helper on constant arguments (isIdent)
+		if cal := x.Call.StaticCallee(); cal != nil && core.InModule(cal) && cal.Signature.Recv() == nil && depth < 2 {
+			args := map[ssa.Value]int64{}
+			for i, a := range x.Call.Args {
+				k, ok := evalErrState(p, a, depth+1)
+				if !ok {
+					return 0, false
+				}
+				args[cal.Params[i]] = k
+			}
+			return interpPure(p, cal, args)
+		}
+	case *ssa.BinOp:
+		if y, eq, ok := ssax.NilCheck(x); ok && isFieldLoad("err")(y) {
+			return bi(!eq) // err != nil
+		}
+		a, ok1 := evalErrState(p, x.X, depth)
+		b, ok2 := evalErrState(p, x.Y, depth)
+		if !ok1 || !ok2 {
+			return 0, false
+		}
+		switch x.Op {
+		case token.EQL:
+			return bi(a == b)
+		case token.NEQ:
+			return bi(a != b)
+		case token.LSS:
+			return bi(a < b)
+		case token.LEQ:
+			return bi(a <= b)
+		case token.GTR:
+			return bi(a > b)
+		case token.GEQ:
+			return bi(a >= b)
+		}
+	}
+	return 0, false
+}
+
+// interpPure runs a loop-free pure function on constant arguments by following
+// its branches (constant folding through a helper; nothing from /repo is executed).
+func interpPure(p *core.Prog, f *ssa.Function, env map[ssa.Value]int64) (int64, bool) {
+	if len(f.Blocks) == 0 {
+		return 0, false
+	}
+	blk := f.Blocks[0]
+	var prev *ssa.BasicBlock
+	for steps := 0; steps < 200; steps++ {
+		for _, ins := range blk.Instrs {
+			switch x := ins.(type) {
+			case *ssa.Phi:
+				for k, pr := range blk.Preds {
+					if pr == prev {
+						v, ok := evalInt(x.Edges[k], env)
+						if !ok {
+							return 0, false
+						}
+						env[x] = v
+					}
+				}
+			case *ssa.BinOp, *ssa.UnOp, *ssa.Convert:
+				if v, ok := evalInt(ins.(ssa.Value), env); ok {
+					env[ins.(ssa.Value)] = v
+				}
+			case *ssa.If:
+				c, ok := evalInt(x.Cond, env)
+				if !ok {
+					return 0, false
+				}
+				prev = blk
+				if c != 0 {
+					blk = blk.Succs[0]
+				} else {
+					blk = blk.Succs[1]
+				}
+			case *ssa.Jump:
+				prev = blk
+				blk = blk.Succs[0]
+			case *ssa.Return:
+				if len(x.Results) != 1 {
+					return 0, false
+				}
+				return evalInt(x.Results[0], env)
+			case *ssa.DebugRef:
+			default:
+				return 0, false
+			}
+		}
+	}
+	return 0, false
+}
+
+// spinsUnderError reports a way to get from the loop head back to it with the
+// reader in its error state; counted loops (an induction variable compared
+// with a loop-invariant bound) are exempt.
+func spinsUnderError(p *core.Prog, g *ssax.Graph, l natLoop) string {
+	fn := g.Fn
+	// counted loop?
+	hdr := fn.Blocks[l.Header]
+	counted := func(b *ssa.BasicBlock) bool {
+		ifi, ok := b.Instrs[len(b.Instrs)-1].(*ssa.If)
+		if !ok {
+			return false
+		}
+		c, ok := ifi.Cond.(*ssa.BinOp)
+		if !ok || c.Op != token.LSS {
+			return false
+		}
+		// x = phi + 1 (or phi) on the left, length/constant on the right
+		return ssax.DerivedFrom(c.X, func(v ssa.Value) bool {
+			ph, ok := v.(*ssa.Phi)
+			return ok && l.Blocks[ph.Block().Index]
+		}, nil) && !ssax.DerivedFrom(c.Y, func(v ssa.Value) bool {
+			cc, ok := v.(*ssa.Call)
+			return ok && cc.Call.StaticCallee() != nil
+		}, nil)
+	}
+	for b := range l.Blocks {
+		exits := false
+		for _, s2 := range g.Succs[b] {
+			if !l.Blocks[s2] {
+				exits = true
+			}
+		}
+		if exits && counted(fn.Blocks[b]) {
+			return ""
+		}
+	}
+	_ = hdr
+	seen := map[int]bool{}
+	var path []int
+	var walk func(b int, first bool) bool
+	walk = func(b int, first bool) bool {
+		if b == l.Header && !first {
+			return true
+		}
+		if seen[b] || !l.Blocks[b] {
+			return false
+		}
+		seen[b] = true
+		path = append(path, b)
+		blk := fn.Blocks[b]
+		succs := g.Succs[b]
+		if ifi, ok := blk.Instrs[len(blk.Instrs)-1].(*ssa.If); ok && len(succs) == 2 {
+			if k, ok := evalErrState(p, ifi.Cond, 0); ok {
+				if k != 0 {
+					succs = []int{blk.Succs[0].Index}
+				} else {
+					succs = []int{blk.Succs[1].Index}
+				}
+			}
+		}
+		for _, s2 := range succs {
+			if walk(s2, false) {
+				return true
+			}
+		}
+		path = path[:len(path)-1]
+		return false
+	}
+	if walk(l.Header, true) {
+		return "(it can: " + ssax.TrailString(path) + " -> head; the loop then spins until the iteration-counter panic)"
+	}
+	return ""
 }
